@@ -186,3 +186,121 @@ c.ensure('recorded_last_in_order', lambda x: z3.And(
         ImpA.box(x.a.statement))))
 c.may_raise_other = True             # ImportError etc. from the import itself
 register(c)
+
+
+# ---- ParseContext._resolve_selector against the per-file symbol table (C19, C15) ---------------------
+# A second view of the function (the opaque view in c_binding_api.py is what callers use): here
+# `self` is the record with its `_symbol_table`, and what is proved is that a selector is resolved
+# through THIS context's table only: first component looked up in the table, every further one
+# by getattr on the previous object; NameError / AttributeError exactly when a link is missing;
+# nothing is modified.
+def has_attr(o, name):
+  return sym.ufun('has_attr', sym.Val, sym.Str, sym.BoolS)(o, name)
+
+
+def attr_of(o, name):
+  return sym.ufun('attr_of', sym.Val, sym.Str, sym.Val)(o, name)
+
+
+def _names(x):
+  return world.str_split(x.a.selector.e, _dot())
+
+
+def _resolve_hook(ex, name, args, kwargs, node):
+  """object() is a fresh sentinel; getattr(o, name, default) with a symbolic name."""
+  if name == 'object' and not args:
+    nf = ex.path.fresh_const('sentinel', sym.Val)
+    ex.path.ghost['sentinel'] = nf
+    tbl = ex.frames[0].env['self'].fields['_symbol_table']
+    s = z3.Const('s!nf', sym.Str)
+    # a freshly created object is not one of the objects already stored in the table
+    ex.path.assume(sym.forall([s], z3.Select(tbl.val, s) != nf, patterns=[z3.Select(tbl.val, s)]))
+    return VObj(nf)
+  if name == 'getattr' and len(args) == 3 and isinstance(args[1], VStr):
+    o = sym.to_val(args[0])
+    if ex.path.decide(has_attr(o, args[1].e)):
+      v = attr_of(o, args[1].e)
+      nf = ex.path.ghost.get('sentinel')
+      if nf is not None:
+        ex.path.assume(v != nf)       # the sentinel was created after every existing object
+      return VObj(v)
+    return args[2]
+  return None
+
+
+c = Contract('config.py::ParseContext._resolve_selector#table', ['C19', 'C15'])
+c.target = 'config.py::ParseContext._resolve_selector'
+c.self_kind = PCtx
+c.param('selector', KStr)
+c.result = KTuple(StrList, KList(KVal))
+c.local_kinds = {'attr_chain': KList(KVal), 'attr_names': StrList}
+c.builtin_hook = _resolve_hook
+c.assumptions.append('getattr(o, n, default) is modelled by has_attr/attr_of; object() yields an '
+                     'object distinct from every object reachable before the call')
+
+
+def _chain_ok(x, chain, upto):
+  """chain[0] is the table entry of the first component; chain[j] is the attribute named by
+  component j of chain[j-1], for 1 <= j < upto."""
+  names = _names(x)
+  tbl = x.self_old.fields['_symbol_table']
+  return z3.And(
+      z3.Select(tbl.dom, names.arr[0]),
+      chain.arr[0] == z3.Select(tbl.val, names.arr[0]),
+      sym.forall([i_], z3.Implies(z3.And(1 <= i_, i_ < upto), z3.And(
+          has_attr(chain.arr[i_ - 1], names.arr[i_]),
+          chain.arr[i_] == attr_of(chain.arr[i_ - 1], names.arr[i_]))),
+          patterns=[chain.arr[i_]]))
+
+
+c.ensure('names_are_the_dotted_components', lambda x: z3.And(
+    x.result.items[0].len == _names(x).len,
+    sym.forall([i_], z3.Implies(z3.And(0 <= i_, i_ < _names(x).len),
+                                x.result.items[0].arr[i_] == _names(x).arr[i_]),
+               patterns=[x.result.items[0].arr[i_]])))
+c.ensure('resolved_through_this_contexts_table_then_by_attribute', lambda x: z3.And(
+    x.result.items[1].len == _names(x).len,
+    _chain_ok(x, x.result.items[1], _names(x).len)))
+c.ensure('context_unchanged', lambda x: PCtx.box(x.self_new) == PCtx.box(x.self_old))
+c.raise_case('unknown_first_component', 'NameError', ensures=[
+    ('only_if_the_first_component_is_not_in_this_contexts_table', lambda x: z3.Not(z3.Select(
+        x.self_old.fields['_symbol_table'].dom, _names(x).arr[0]))),
+    ('context_unchanged', lambda x: PCtx.box(x.self_new) == PCtx.box(x.self_old))])
+c.raise_case('missing_attribute', 'AttributeError', ensures=[
+    ('only_if_the_first_component_is_in_the_table', lambda x: z3.Select(
+        x.self_old.fields['_symbol_table'].dom, _names(x).arr[0])),
+    ('context_unchanged', lambda x: PCtx.box(x.self_new) == PCtx.box(x.self_old))])
+c.raises_only_listed = True
+c.loop(('attr_names[1:]', None), [Clause(
+    'chain_so_far_follows_the_names', lambda x, k: z3.And(
+        x.env.attr_chain.len == k + 1, _chain_ok(x, x.env.attr_chain, k + 1)))])
+register(c)
+
+
+# ---- ParseContext.get_configurable without dynamic registration (C11, C08) ---------------------------
+# Record view, static mode only (the dynamic branch ends in `_register`, which creates
+# registrations from real module objects and is not under contract): a name is known iff the
+# registry resolves it, to exactly the entry the suffix rule selects; nothing is registered.
+from contracts.b_selector_map import M as _M, matches as _matches
+_s2 = z3.Const('s!gc', sym.Str)
+_t2 = z3.Const('t!gc', sym.Str)
+
+c = Contract('config.py::ParseContext.get_configurable#static', ['C11', 'C08'])
+c.target = 'config.py::ParseContext.get_configurable'
+c.self_kind = PCtx
+c.param('selector', KStr)
+c.result = KVal
+c.require('dynamic_registration_is_off', lambda x: z3.Not(
+    x.self_old.fields['_dynamic_registration'].e))
+c.ensure('the_entry_of_the_unique_match_or_none', lambda x: z3.And(
+    sym.forall([_s2], z3.Implies(_matches(x.old['_REGISTRY'], x.a.selector.e, _s2),
+                                 x.result.e == _M(x.old['_REGISTRY']).val[_s2])),
+    z3.Implies(sym.forall([_s2], z3.Not(_matches(x.old['_REGISTRY'], x.a.selector.e, _s2))),
+               x.result.e == sym.VAL_NONE)))
+c.raise_case('ambiguous', 'KeyError', ensures=[
+    ('only_if_two_registered_names_match', lambda x: z3.Exists([_s2, _t2], z3.And(
+        _s2 != _t2, _matches(x.old['_REGISTRY'], x.a.selector.e, _s2),
+        _matches(x.old['_REGISTRY'], x.a.selector.e, _t2))))])
+c.ensure('context_unchanged', lambda x: PCtx.box(x.self_new) == PCtx.box(x.self_old))
+c.raises_only_listed = True
+register(c)
